@@ -324,8 +324,15 @@ def plan(oracle: Oracle, tier: str, levels: List[str]) -> List[dict]:
         for d in G.TYPES:
             keys = G.pool_for(s, d, tier)
             for lvl in levels:
-                if tier != "thorough" and lvl == "scalarvar" and s == "String" and d != "Boolean":
-                    continue                  # quick: input scalars of type String only towards Boolean (the path that differs)
+                both_forbid = not oracle.doc_allows(s, d) and not oracle.code_allows(s, d)
+                if tier != "thorough":
+                    # quick: input scalars only where their path can differ (time-typed sources, String -> Boolean); a pair forbidden by
+                    # both tables runs with data at the scalar and dataset levels (semantic_analysis alone covers all three levels)
+                    if lvl == "scalarvar" and not (s in ("Time", "Date", "Time_Period", "Duration") and not both_forbid) \
+                            and (s, d) != ("String", "Boolean"):
+                        continue
+                    if both_forbid and lvl == "component":
+                        continue
                 if not oracle.doc_allows(s, d) and not oracle.code_allows(s, d):
                     if tier == "thorough" and lvl in ("scalar", "scalarvar"):
                         for k in keys:       # one statement per script: every value meets the semantic error itself
